@@ -132,6 +132,20 @@ def pay_tenv():
 def pay_sysexit():
     sys.exit(3)
 
+
+class _OsProxy(object):
+    """what worker_default.py sees as `os`: the real module with getpid answered by the rig.
+       (patching os.getpid itself would leak into every other thread of the check process, e.g.
+       into multiprocessing's parent-pid assertions of the parts running side by side)"""
+    def __init__(self, getpid):
+        self._getpid = getpid
+    def getpid(self):
+        return self._getpid()
+    def __getattr__(self, name):
+        import os as _os
+        return getattr(_os, name)
+
+
 class ChildDied(BaseException):
     '''stands for the payload process ending abruptly (os._exit, SIGKILL,
        SIGSEGV): nothing of the code above the payload gets to run any more'''
@@ -784,7 +798,7 @@ class RaptorRig(DispatcherBench):
         self.penv.enter()
         dead = False
         try:
-            with mock.patch.object(wd.os, 'getpid', lambda: self.race_pid), \
+            with mock.patch.object(wd, 'os', _OsProxy(lambda: self.race_pid)), \
                  mock.patch.object(setproctitle, 'setproctitle', lambda *a: None):
                 ctl.spawn('Q', lambda: self.w._request_cb([task]))
                 if not self.wdead:
@@ -842,7 +856,7 @@ class RaptorRig(DispatcherBench):
         self.penv.enter()
         dead = False
         try:
-            with mock.patch.object(wd.os, 'getpid', lambda: proc.pid), \
+            with mock.patch.object(wd, 'os', _OsProxy(lambda: proc.pid)), \
                  mock.patch.object(setproctitle, 'setproctitle', lambda *a: None):
                 ctl.spawn('P', parent)
                 try:
